@@ -12,7 +12,7 @@ import json, os, shutil, subprocess, sys, time
 prop, x, src = sys.argv[1:4]
 rebased = sys.argv[5] if len(sys.argv) > 5 and sys.argv[4] == "--rebased" else None
 VERIF = "/verif"
-name = f"{prop}-{x}"
+name = os.environ.get("KEEP_NAME") or f"{prop}-{x}"
 wt = f"/tmp/scratch_{name}"
 out = os.path.join(VERIF, "seeded", name)
 env = dict(os.environ, PYTHONPATH=f"{VERIF}/shims:{wt}/src", PYTHONDONTWRITEBYTECODE="1")
